@@ -292,7 +292,20 @@ func ruleAuthGate(r *Run) {
 				if ev.Callee == verifyH {
 					idx = 0
 				}
-				args = append(args, r.P.Canon(main, ev.Call.Args[idx]))
+				// the variable the client lives in (a helper's parameter is main's argument), not the printed form
+				// of its definition: two prints of one long expression may be cut differently
+				bfn, bx := resolveBound(ev.Fn, ev.Call.Args[idx])
+				c := r.P.Canon(bfn, bx)
+				if id, isID := ast.Unparen(bx).(*ast.Ident); isID {
+					if obj := bfn.Info().Uses[id]; obj != nil {
+						tag := "other"
+						if strings.Contains(c, "NewClient(") {
+							tag = "NewClient("
+						}
+						c = fmt.Sprintf("var@%d:%s", obj.Pos(), tag)
+					}
+				}
+				args = append(args, c)
 			}
 		}
 		if len(args) == 0 {
